@@ -136,16 +136,17 @@ type ex4Server struct {
 }
 
 type ex4State struct {
-	s      *simrt.Sim
-	tape   *simrt.Tape
-	net    *Net
-	raw    bool
-	T      time.Duration
-	tries  int
-	stall  bool
-	xid    dhcpv4.TransactionID
-	forced bool // the harness chooses the transaction id (else: the library's own random one)
-	xnames map[uint32]string
+	s          *simrt.Sim
+	tape       *simrt.Tape
+	net        *Net
+	raw        bool
+	T          time.Duration
+	tries      int
+	stall      bool
+	serverAddr *net.UDPAddr // the address the client is configured to talk to (default: limited broadcast, port 67)
+	xid        dhcpv4.TransactionID
+	forced     bool // the harness chooses the transaction id (else: the library's own random one)
+	xnames     map[uint32]string
 
 	cconn   *Conn // the client's socket (direct mode) or the link (raw mode)
 	servers []*ex4Server
@@ -188,6 +189,9 @@ func ex4Scenario() *Scenario {
 func (st *ex4State) start() {
 	s, t := st.s, st.tape
 	st.raw = t.Coin(1, 2)
+	// package-level state of the library is put back before every run: a change that writes
+	// through it must not make runs depend on each other
+	*nclient4.DefaultServers = net.UDPAddr{IP: net.IPv4bcast, Port: 67}
 	ex4ClientHW = drawClientHW(t)
 	st.T = pick(t, ms(50), ms(200))
 	st.tries = 1 + t.Weighted(2, 3, 2)
@@ -244,7 +248,8 @@ func (st *ex4State) start() {
 		if t.Coin(1, 3) {
 			// a client configured with a (unicast) server address: DISCOVER / REQUEST / renewals go
 			// there; the release still goes to the lease's server
-			copts = append(copts, nclient4.WithServerAddr(&net.UDPAddr{IP: net.IPv4(10, 0, 0, byte(1+t.Choose(3))), Port: 67}))
+			st.serverAddr = &net.UDPAddr{IP: net.IPv4(10, 0, 0, byte(1+t.Choose(3))), Port: 67}
+			copts = append(copts, nclient4.WithServerAddr(&net.UDPAddr{IP: append(net.IP(nil), st.serverAddr.IP...), Port: 67}))
 			s.Probe("client-with-configured-server-address")
 		}
 		cl, err := nclient4.NewWithConn(cc, ex4ClientHW, copts...)
@@ -544,6 +549,13 @@ func (st *ex4State) handler(sv *ex4Server) server4.Handler {
 				mods = append(mods, dhcpv4.WithGeneric(dhcpv4.GenericOptionCode(43), []byte{1, 2, byte(sv.id), byte(t.Choose(250))}),
 					dhcpv4.WithGeneric(dhcpv4.GenericOptionCode(224), bytes.Repeat([]byte{byte(0x30 + t.Choose(9))}, 1+t.Choose(300))))
 			}
+			if t.Coin(1, 3) {
+				// ... really arbitrary: any other option code with a short drawn value (client
+				// identifier echoed or invented, NTP servers, TFTP server, classless routes, ...)
+				code := []int{61, 61, 12, 15, 28, 42, 43, 57, 58, 59, 60, 66, 67, 77, 81, 82, 93, 97, 119, 121, 125, 150, 252}[t.Choose(23)]
+				mods = append(mods, dhcpv4.WithGeneric(dhcpv4.GenericOptionCode(code), randBytes(t, 1+t.Choose(9))))
+				s.Fault("reply-arbitrary-extra-option")
+			}
 			// siaddr ("next server") and ciaddr are the server's to fill in: neither is the server identifier
 			switch t.Weighted(4, 2, 2) {
 			case 1:
@@ -565,6 +577,11 @@ func (st *ex4State) handler(sv *ex4Server) server4.Handler {
 			rep, err := dhcpv4.NewReplyFromRequest(m, mods...)
 			if err != nil {
 				continue
+			}
+			if t.Coin(1, 30) {
+				// a BOOTP-style reply: no message-type option at all
+				rep.Options.Del(dhcpv4.OptionDHCPMessageType)
+				s.Fault("reply-without-message-type")
 			}
 			if t.Coin(1, 25) {
 				// a message-type option that is two octets long: no DHCP message type at all
@@ -798,6 +815,20 @@ func (st *ex4State) oracle(v *vio) {
 		for _, tx := range o.txs {
 			if !tx.ok {
 				v.add("X-tx-malformed", "%s: transmitted something that is not a BOOTP/DHCP packet", name)
+			}
+		}
+		// DISCOVER, REQUEST and renewals go to the server address the client was built with
+		// (by default the limited broadcast address, port 67), whatever happened before
+		if o.kind != "release" {
+			want := st.serverAddr
+			if want == nil {
+				want = &net.UDPAddr{IP: net.IPv4bcast, Port: 67}
+			}
+			for j, tx := range o.txs {
+				if tx.dest == nil || !tx.dest.IP.Equal(want.IP) || tx.dest.Port != want.Port {
+					v.add("X-dest", "%s: transmission %d went to %v, want the client's server address %v", name, j+1, tx.dest, want)
+					break
+				}
 			}
 		}
 		// a NAK answers a REQUEST: no call may end in a NAK error before it has transmitted one
